@@ -11,6 +11,9 @@ Per program it returns
                         unknown-site, depth-below-offset, only-leaves, void, cut-not-applied, dispatch
   leaks                 calls entered above `entry depth + offset` (a callee left the counter raised)
   erasure               per function: {n0, n, first, tests, max_combinations}
+  norise                recursive calls of a dispatched generator entered at a depth <= the depth of the enclosing
+                        generate_expr call at a site that is not a listed same-depth site (needs table()["same"],
+                        set by the check from the driver's `sameDepthSites`)
   max_wdepth            most raised-counter calls on a path since the root of the region (= `Shape.wdepth`
                         of the real call tree); `over` = calls where it exceeds `B sk m d_root`;
                         max_slack = max (wdepth - (cutK*m - d_root))  (the theorem says <= 4*maxCnt)
@@ -19,6 +22,7 @@ import inspect
 import sys
 
 _TABLE = {}
+SPEC_CUTK = 2
 
 
 def table():
@@ -35,6 +39,7 @@ def table():
     allsites = [s for g in sk["gens"] + sk["roots"] for s in g["sites"]]
     _TABLE["maxCnt"] = max([s["cnt"] for s in allsites] + [0])
     _TABLE["cutK"] = max([s["cut"][1] for s in allsites if s["cut"] and s["cut"][0] == ">"] + [0])
+    _TABLE["leafgens"] = {a for a in (disp[1] if len(disp) > 1 else []) if a in {g["name"] for g in sk["gens"]}}
     _TABLE.update(sites=sites, heads=names, gens={g["name"] for g in sk["gens"]},
                   wrap=[m["name"] for m in sk["raw"]], dispatch=disp, conds=[c for c, _ in sk["dispatch"]])
     return _TABLE
@@ -47,7 +52,7 @@ def install(state, spec):
     st = state.setdefault("depth", {})
     st.update(max_depth_seen=0, max_nesting=0, max_pyframes=0, calls=0, validated=0, bottoms=0, leaks=0,
               mismatches=[], mismatch_counts={}, site_hits={}, dispatch_checked=0, erasure=[], orig={},
-              max_wdepth=0, max_slack=-10**6, over=[])
+              max_wdepth=0, max_slack=-10**6, over=[], norise=[], norise_count=0, uncut=[], uncut_count=0)
     stack = []          # (name, entry depth, only_leaves)
     nest = [0]
 
@@ -128,6 +133,23 @@ def install(state, spec):
                             prim = et is not None and getattr(et, "is_primitive", lambda: False)()
                             if not prim:
                                 miss("cut-not-applied", site=list(key), depth=d1, max_depth=m)
+                        # specification side, independent of the offsets of the table: a recursive call made by a
+                        # dispatched generator is entered ABOVE the depth of the enclosing generate_expr call,
+                        # except at the listed same-depth sites (`sameDepthSites` of Model/Depth.lean)
+                        if head[0] in tb["gens"] and outer is not None and not gb and d1 <= outer[1] \
+                                and (key[0], s["targ"]) not in tb.get("same", ()):
+                            st["norise_count"] += 1
+                            if len(st["norise"]) < 3:
+                                st["norise"].append({"site": list(key), "type_argument": s["targ"],
+                                                     "outer_depth": outer[1], "depth": d1})
+                        # … and the raised-counter recursion of a LEAF generator (the leaf branch of
+                        # get_generators: gen_new into the fields of the class) is cut to the bottom constant /
+                        # primitive values above SPEC_CUTK * max_depth (the constant the claimed bound uses)
+                        if head[0] in tb["leafgens"] and s["cnt"] > 0 and not gb and d1 > SPEC_CUTK * m \
+                                and not (et is not None and getattr(et, "is_primitive", lambda: False)()):
+                            st["uncut_count"] += 1
+                            if len(st["uncut"]) < 3:
+                                st["uncut"].append({"site": list(key), "depth": d1, "max_depth": m})
                         # raised-counter calls since the root of the region (the real counterpart of `wdepth`)
                         if head[0] in tb["gens"] and outer is not None:
                             cum, droot = outer[5] + s["cnt"], outer[6]
